@@ -494,12 +494,13 @@ CFGS = {
     "wb_csr32_paging1000": dict(csr_paging=0x1000),
     "wb_csr32_memfirst": dict(periph_name="audio"),
     "wb_csr32_pinned": dict(pin=9),
+    "wb_csr32_aw15_pinned33": dict(csr_address_width=15, pin=33),      # a peripheral beyond the first 64 KiB of a CSR space wider than the default 14 bits
 }
 
 
 def jobs(tier):
     T = tier == "thorough"
-    names = ["wb_csr32", "wb_csr32_paging400", "wb_csr32_little", "wb_csr32_memfirst", "wb_csr32_pinned"] + (["wb_csr8", "axil_csr32", "wb_csr32_aw15", "wb_csr32_crossbar", "wb_csr32_paging1000"] if T else [])
+    names = ["wb_csr32", "wb_csr32_paging400", "wb_csr32_little", "wb_csr32_memfirst", "wb_csr32_pinned", "wb_csr32_aw15_pinned33"] + (["wb_csr8", "axil_csr32", "wb_csr32_aw15", "wb_csr32_crossbar", "wb_csr32_paging1000"] if T else [])
     js = [Job("soc_%s" % n, build, dict(cfgname=n, K=(46 if "csr8" in n else 30)), cost=60, timeout_s=3400) for n in names]
     from vf.props import c14_mem
     js += c14_mem.jobs(tier)
